@@ -58,18 +58,22 @@ CleanExpired ==
      /\ gone' = gone \cup D
   /\ UNCHANGED <<scen, order, rcvd, ext, index, tip, status, pending, preQ, verQ, svc, vfy, replies>>
 
-\* a block that is received again is no longer "gone"
-CoreStep == \/ MintX \/ Seal \/ (\E b \in All : Deliver(b))
-            \/ Insert \/ Broker \/ (\E l \in All : ReleaseLeader(l)) \/ Preload \/ Verify \/ VerifyDone
-NextX == \/ CoreStep /\ UNCHANGED gone
-         \/ Receive /\ gone' = gone \ {order[rcvd + 1]}
-         \/ CleanExpired
+\* the core model's actions leave `gone` alone, except that a block that is received again is no longer "gone"
+XMint == MintX /\ UNCHANGED gone
+XSeal == Seal /\ UNCHANGED gone
+XDeliver == (\E b \in All : Deliver(b)) /\ UNCHANGED gone
+XReceive == Receive /\ gone' = gone \ {order[rcvd + 1]}
+XInsert == Insert /\ UNCHANGED gone
+XBroker == Broker /\ UNCHANGED gone
+XRelease == (\E l \in All : ReleaseLeader(l)) /\ UNCHANGED gone
+XPreload == Preload /\ UNCHANGED gone
+XVerify == Verify /\ UNCHANGED gone
+XVerifyDone == VerifyDone /\ UNCHANGED gone
+NextX == XMint \/ XSeal \/ XDeliver \/ XReceive \/ XInsert \/ XBroker \/ XRelease \/ XPreload \/ XVerify \/ XVerifyDone \/ CleanExpired
 SpecX == InitX /\ [][NextX]_varsX
 FairSpecX == /\ SpecX
-             /\ WF_varsX(Receive /\ gone' = gone \ {order[rcvd + 1]})
-             /\ WF_varsX(Insert /\ UNCHANGED gone) /\ WF_varsX(Broker /\ UNCHANGED gone)
-             /\ WF_varsX((\E l \in All : ReleaseLeader(l)) /\ UNCHANGED gone)
-             /\ WF_varsX(Preload /\ UNCHANGED gone) /\ WF_varsX(Verify /\ UNCHANGED gone) /\ WF_varsX(VerifyDone /\ UNCHANGED gone)
+             /\ WF_varsX(XReceive) /\ WF_varsX(XInsert) /\ WF_varsX(XBroker) /\ WF_varsX(XRelease)
+             /\ WF_varsX(XPreload) /\ WF_varsX(XVerify) /\ WF_varsX(XVerifyDone)
 
 -----------------------------------------------------------------------------
 \* blocks the node has and has not dropped
@@ -85,7 +89,9 @@ RetainedWithinHorizon == [][\A b \in gone' \ gone : Epoch(PoolRoot(b)) + Horizon
 \* what is gone is really gone, what is not gone is where the core model says it is
 GoneConsistent == \A b \in gone : b \notin stored /\ b \notin orphans /\ b \notin pending /\ ext[b] = "none" /\ b \notin status
 NeverLeaveTipForNotHeavierX == [][tip' # tip => TD(tip') > TD(tip)]_varsX
-\* progress: judged, or waiting for the next block (ChainCore.tla), or dropped by expiry
-EventuallyJudgedX == \A b \in Blocks : Ready(b) ~> (Judged(b) \/ WaitsForNextBlock(b) \/ (b \in gone /\ Settled(b)))
+\* progress: judged, or waiting for the next block (ChainCore.tla), or the block / one of its ancestors was dropped by
+\* expiry and has not been delivered again (the sync layer has to ask for it once more)
+DroppedAbove(b) == \E a \in ChainOf(b) \ {0} : a \in gone
+EventuallyJudgedX == \A b \in Blocks : Ready(b) ~> (Judged(b) \/ WaitsForNextBlock(b) \/ DroppedAbove(b))
 EventuallyQuiescentX == <>[]Quiescent
 =============================================================================
